@@ -10,7 +10,7 @@ FORM = ('R (replay): numpy.linalg.norm answers recorded inside krylov.py; the mo
         'Afunc = product with the same dyadic matrix and the recorded norms as oracle (lookup by the contract r^2 = |x|^2, 1e-9). '
         'Step-wise on every case: each pass of the loop body is run by the model from the implementation\'s own state '
         '(its V[:, :j+1], beta[:j]) and must reproduce alpha[j], beta[j], V[:, j+1], the breakdown decision and the output '
-        'shapes / RuntimeWarning; additionally the whole model run is compared when at most 3 (Lanczos) / 2 (Arnoldi) vectors are returned '
+        'shapes / RuntimeWarning; additionally the whole model run is compared when at most 2 vectors are returned (3 for Lanczos with n <= 3) '
         '(exact rational arithmetic makes numerators triple in length per iteration). Values 1e-9 scale-aware, compared in Coq; '
         'shapes, warning flag and zeros of H below the subdiagonal exactly.')
 RULE = ('n in 1..7 (quick mostly <= 5), numiter in 1..n (lanczos also n+1: forced breakdown); real symmetric / complex Hermitian '
@@ -33,8 +33,8 @@ PARTIAL = ('proved for the model, all n >= 1, numiter >= 1, every ordered field 
 ASSUMPTIONS = ['cases with a recorded loop norm in [100 n eps, 1e-6) (floating point noise decides the breakdown test) are '
                'excluded from the correspondence and counted in the class "ambiguous"']
 
-SPECS = ['generic', 'generic', 'generic', 'generic', 'degenerate', 'degenerate', 'degenerate', 'scalar', 'zero']
-STARTS = ['generic', 'generic', 'generic', 'real', 'invariant', 'invariant', 'eigvec']
+SPECS = ['generic'] * 10 + ['degenerate'] * 6 + ['scalar', 'zero']
+STARTS = ['generic'] * 4 + ['real'] + ['invariant'] * 3 + ['eigvec']
 
 
 def _case(rng, routine, n, m, cplx, spectrum, start):
@@ -62,8 +62,8 @@ def cases(rng, tier):
     for _ in range(N):
         routine = rng.choice(['lanczos', 'arnoldi'])
         n = rng.choice(sizes)
-        m = rng.randint(1, n)
-        if rng.random() < 0.5:
+        m = 1 if rng.random() < 0.08 else rng.randint(min(2, n), n)
+        if rng.random() < 0.45:
             m = n
         if routine == 'lanczos' and rng.random() < 0.08:
             m = n + 1
@@ -103,8 +103,9 @@ def prop(case, r):
 
 
 def _full(r):
-    # whole-run replay in exact arithmetic: numerators triple in length per iteration
-    return len(r['V']) <= (3 if 'alpha' in r else 2)
+    # whole-run replay in exact arithmetic: numerators triple in length per iteration (measured: Lanczos n=4, k=3: 60 s, 1.3 GB)
+    k = len(r['V'])
+    return k <= 2 or (k == 3 and 'alpha' in r and len(r['V'][0]) <= 3)
 
 
 def coq(case, r):
